@@ -95,9 +95,11 @@ func getPersistentVolumeClaimName(set *apps.StatefulSet, claim *v1.PersistentVol
 	return fmt.Sprintf("%s-%s-%d", claim.Name, set.Name, ordinal)
 }
 
-// isMemberOf tests if pod is a member of set.
+// isMemberOf tests if pod is a member of set. A Pod whose name has no valid ordinal can not be managed and is not a
+// member.
 func isMemberOf(set *apps.StatefulSet, pod *v1.Pod) bool {
-	return getParentName(pod) == set.Name
+	parent, ordinal := getParentNameAndOrdinal(pod)
+	return ordinal >= 0 && parent == set.Name
 }
 
 // identityMatches returns true if pod has a valid identity and network identity for a member of set.
